@@ -326,4 +326,42 @@ theorem C19_quantifier_needed :
     ¬ InQuantifier { exZero with hostnames := [2], ports := [0] } := by
   decide
 
+/-! ### restart on the same fixed ports -/
+
+/-- **C19 SO_REUSEADDR before bind.**  In the calls `TcpSocketListener.listen`
+(and `UnixSocketListener.listen`) makes on its socket, `setsockopt(SO_REUSEADDR)`
+comes before the one `bind`, and `listen` after it — for every address family,
+port and backlog. -/
+theorem C19_reuseaddr_before_bind (v6 : Bool) (port backlog : Nat) :
+    (∃ pre mid post, tcpListenOps v6 port backlog = pre ++ .setReuseAddr :: mid ++ .bind port :: post ∧
+      (∀ q, SockOp.bind q ∉ pre ++ mid ++ post) ∧ SockOp.listen backlog ∈ post) ∧
+    (∃ pre mid post, unixListenOps backlog = pre ++ .setReuseAddr :: mid ++ .bindPath :: post ∧
+      SockOp.bindPath ∉ pre ++ mid ++ post ∧ SockOp.listen backlog ∈ post) :=
+  ⟨⟨[.socket (if v6 then .inet6 else .inet)], [.setNoDelay],
+      [.listen backlog, .setNonBlocking, .getsockname], rfl, by simp, by simp⟩,
+   ⟨[.socket .unix], [], [.listen backlog, .setNonBlocking], rfl, by simp, by simp⟩⟩
+
+/-- **C19 restart binds.**  Whatever an earlier instance left lingering on the
+address (connections it closed itself, in FIN_WAIT / TIME_WAIT), the calls of
+a listener end with a bound, listening socket — for fixed ports as well as for
+port 0.  This is what lets `bindAll` (hence `C19_report`, `C19_starts`) treat a
+start after a shutdown like a first start. -/
+theorem C19_restart_binds (lingering v6 : Bool) (port backlog : Nat) :
+    runOps lingering ⟨false, false, false⟩ (tcpListenOps v6 port backlog) = .ok ⟨true, true, true⟩ ∧
+    runOps lingering ⟨false, false, false⟩ (unixListenOps backlog) = .ok ⟨true, true, true⟩ := by
+  simp [tcpListenOps, unixListenOps, runOps]
+
+/-- the order matters: the same calls with `bind` moved in front of the `setsockopt`s do not come
+up on a fixed port when something lingers (and do when nothing does, or for port 0) -/
+example :
+    runOps true ⟨false, false, false⟩
+      [.socket .inet, .bind 8899, .getsockname, .setReuseAddr, .setNoDelay, .listen 100, .setNonBlocking]
+      = .error .addrInUse ∧
+    runOps false ⟨false, false, false⟩
+      [.socket .inet, .bind 8899, .getsockname, .setReuseAddr, .setNoDelay, .listen 100, .setNonBlocking]
+      = .ok ⟨true, true, true⟩ ∧
+    runOps true ⟨false, false, false⟩
+      [.socket .inet, .bind 0, .getsockname, .setReuseAddr, .setNoDelay, .listen 100, .setNonBlocking]
+      = .ok ⟨true, true, true⟩ := ⟨rfl, rfl, rfl⟩
+
 end Px.Listen
